@@ -8,6 +8,8 @@ use crate::probes::MetaToken;
 use crate::world::*;
 use axelar_soroban_std::types::Token;
 use proptest::prelude::*;
+#[allow(unused_imports)]
+use crate::prop_oneof;
 use serde::{Deserialize, Serialize};
 use soroban_sdk::token::TokenClient;
 use soroban_sdk::xdr::ScVal;
